@@ -1,8 +1,19 @@
 from harness.props import base
 from harness import preds
-LEVEL = 'other'
-VFILES = ['Lines.v', 'Tok.v', 'Engine.v']
-EXPLANATION = 'positions: correspondence (positions are part of the canonical token/tree form) + positions_true predicate on implementation trees.'
+LEVEL = 'proof'
+VFILES = ['Lines.v', 'Tok.v', 'TokTiles.v', 'TokPos.v', 'Engine.v', 'ParseKeeps.v', 'Properties/C03.v']
+TECHNIQUE = ('Coq invariant proof over the Gallina port of tokenize_lines (every non-block token starts at the text offset its line/column names, '
+             'BOM zero-width, for all inputs) + proof that the engine (incl. error recovery) keeps the text-carrying tokens as the leaves in order '
+             '+ lines/tok/parse correspondence + positions_true predicate search')
+EXPLANATION = ('Proved for all inputs on the pipeline model (Properties/C03.v): TokPos.tok_positions - whenever the guarded tokenizer model returns tokens, walking '
+               'the stream from offset 0 every token other than the zero-width INDENT/DEDENT/ERROR_DEDENT starts, after its prefix, at the offset named by its '
+               '(line, column) relative to the line list (lines numbered from start line, a BOM at the very start has zero width; multi-line strings and f-string '
+               'parts keep the position where they started); ParseKeeps.parse_keeps_leaves - the text-carrying leaves of the tree returned by the engine are '
+               'exactly the text-carrying tokens, in order, with the same value, prefix and position, in both modes including error recovery; together '
+               'C03_leaf_positions. Not modelled in Coq (partial): end_pos of leaves / start and end of nodes (computed properties in tree.py), the module end, '
+               'get_start_pos_of_prefix, and the placement of zero-width error leaves; these are checked by the positions_true predicate on implementation trees '
+               'and by the tok/parse correspondence (positions are part of the canonical token/tree form).')
+LEVEL_TEXT = EXPLANATION
 
 
 def pred(v, code, m):
